@@ -356,12 +356,18 @@ class Shadow:
         return True
 
 
-def gen_history(rng, n_ops=8, depth=3, paced=True, burst_prob=0.5, outside=True):
-    """A (mostly valid) operation history; with `paced`, a drain follows every directory operation's group
-    before its contents / names are touched again."""
+def gen_history(rng, n_ops=8, depth=3, paced=True, burst_prob=0.5, outside=True, moved_out_ops=False,
+                rename_after_arrival=0.15, names=None):
+    """A (mostly valid) operation history.  With `paced`, a drain is inserted before an operation touches a
+    directory (its contents, its old or new name) that was created/renamed/moved/removed since the last drain -
+    except that a directory may be renamed again right after it arrived (the pacing condition of C01).
+    Without `moved_out_ops`, nothing below a directory that has left the tree is touched again (it may move back)."""
+    names = names or NAMES
     sh = Shadow()
     hist = []
-    hot = set()          # names/paths involved in directory operations since the last drain
+    hot = set()          # paths involved in directory operations since the last drain
+    arrived = None       # a directory that has just arrived (mkdir / move in), eligible for one immediate rename
+    left = set()         # directories (now in O) that were in the tree before
 
     def touches_hot(*paths):
         for p in paths:
@@ -370,56 +376,83 @@ def gen_history(rng, n_ops=8, depth=3, paced=True, burst_prob=0.5, outside=True)
                     return True
         return False
 
+    def under_left(p):
+        return any(p[:len(l)] == l and len(p) > len(l) for l in left)
+
     def rand_path(parent_pool):
         par = rng.choice(parent_pool)
-        return par + (rng.choice(NAMES),)
+        return par + (rng.choice(names),)
 
     for _ in range(n_ops):
         r = rng.random()
         areas = None if outside else "R"
-        dirs = [d for d in sh.dirs(areas) if len(d) < depth + 1]
-        files = sh.files(areas)
+        dirs = [d for d in sh.dirs(areas) if len(d) < depth + 1 and (moved_out_ops or not (d in left or under_left(d)))]
+        files = [f for f in sh.files(areas) if moved_out_ops or not under_left(f)]
         kind, p, q = None, None, None
-        if r < 0.22:
+        if arrived is not None and arrived in sh.ent and rng.random() < rename_after_arrival / 0.15 * 0.5:
+            kind, p, q = "rename", arrived, rand_path([d for d in dirs if d[:len(arrived)] != arrived] or [("R",)])
+        elif r < 0.22 and dirs:
             kind, p = "touch", rand_path(dirs)
         elif r < 0.32 and files:
             kind, p = rng.choice(["write", "chmod"]), rng.choice(files)
         elif r < 0.42 and files:
             kind, p = "unlink", rng.choice(files)
-        elif r < 0.62:
+        elif r < 0.62 and dirs:
             kind, p = "mkdir", rand_path(dirs)
         elif r < 0.70:
-            cands = [d for d in sh.dirs(areas) if len(d) > 1]
+            cands = [d for d in dirs if len(d) > 1]
             if cands:
                 kind, p = "rmdir", rng.choice(cands)
         elif r < 0.74:
-            cands = [d for d in sh.dirs(areas) if len(d) > 1]
+            cands = [d for d in dirs if len(d) > 1]
             if cands:
                 kind, p = "chmod", rng.choice(cands)
         else:
-            cands = [e for e in sh.ent if len(e) > 1 and (areas is None or e[0] == areas)]
-            if cands:
+            cands = [e for e in sh.ent if len(e) > 1 and (areas is None or e[0] == areas)
+                     and (moved_out_ops or not under_left(e))]
+            if cands and dirs:
                 p = rng.choice(cands)
                 kind, q = "rename", rand_path(dirs)
         if kind is None:
             continue
-        isdirop = kind in ("mkdir", "rmdir") or (kind == "rename" and sh.ent.get(tuple(p), False)) or \
-            (kind == "chmod" and sh.ent.get(tuple(p), False))
+        p = tuple(p)
+        q = tuple(q) if q else None
+        is_dir_entry = sh.ent.get(p, False)
+        isdirop = kind in ("mkdir", "rmdir") or (kind in ("rename", "chmod") and is_dir_entry)
         paths = [p] + ([q] if q else [])
-        if paced and touches_hot(*paths):
-            # one exception allowed by the property: a directory may be renamed again right after it arrived
+        second_rename = (kind == "rename" and arrived is not None and p == arrived)
+        if paced and touches_hot(*paths) and not second_rename:
             hist.append(["drain"])
             hot.clear()
+            arrived = None
+        if paced and second_rename and touches_hot(q):
+            # the new name must not be one of the names involved either
+            if any(h != p and (q[:len(h)] == h or h[:len(q)] == q) for h in hot):
+                hist.append(["drain"])
+                hot.clear()
+                arrived = None
         if not sh.apply(kind, p, q):
             if rng.random() < 0.8:
                 continue          # keep a few invalid operations (they are skipped on both sides)
+            hist.append(["op", kind, list(p)] + ([list(q)] if q else []))
+            continue
         hist.append(["op", kind, list(p)] + ([list(q)] if q else []))
+        if kind == "rename" and is_dir_entry:
+            if p[0] == "R" and q[0] == "O":
+                left.add(q)
+            if q[0] == "R":
+                left.discard(p)
+                left = {l for l in left if l[:len(p)] != p}
         if isdirop:
-            hot.update(tuple(x) for x in paths)
+            hot.update(paths)
+            arrived = None
+            if kind == "mkdir" and p[0] == "R":
+                arrived = p
+            if kind == "rename" and is_dir_entry and q[0] == "R" and p[0] == "O":
+                arrived = q
         if rng.random() > burst_prob:
             hist.append(["drain"])
             hot.clear()
+            arrived = None
     hist.append(["drain"])
     return hist
-
-
